@@ -441,7 +441,7 @@ def selector_patterns(rep, drv, dotall):
     undec = [r for r in results if r["status"] == "unknown"]
     if diffs:
         conf = None
-        for r in sorted(diffs, key=lambda r: (len(r["base"]) + len(r["glob"]), r["base"]))[:12]:
+        for r in sorted(diffs, key=lambda r: (len(r["base"]) + len(r["glob"]), r["ci"], r["kind"] != "S", r["base"]))[:60]:
             if r["status"] == "rejected":
                 conf = (r, "real PathSelector %s glob %r under base dir %r" % (r["which"], r["glob"], r["base"]))
                 break
@@ -715,6 +715,7 @@ def selector_logic(rep, prog):
         nm = getattr(who, "name", None)
         if nm is None:
             return NotImplemented
+        st.events.append(mirsym.Event("call", "VERDICT:" + nm, tuple(args), None, len(st.pc), e.site(st)))
         return Bool(z3.Bool("%s(%s)" % (callee.rsplit("::", 1)[1], nm)))
     ex[r"Pattern::(matches|matches_partially|matches_prefix|matches_path)$"] = s_verdict
     inl = oblig.module_inliner(prog, "selector.rs", r"^$")
@@ -763,6 +764,18 @@ def selector_logic(rep, prog):
                             detail = "with %d name / %d path / %d exclude patterns the verdict differs from the documented combination " % (nn, np_, nx)
                             o.cex = {"lists": [nn, np_, nx], "path_condition": [str(c)[:100] for c in p.pc][:10]}
                             break
+                        # the strings the patterns are asked about come from lossy conversions only: a name or path that is not valid
+                        # UTF-8 is still matched (through its lossy form), never replaced by an empty or missing string
+                        asked = [ev for ev in p.events if ev.kind == "call" and ev.callee.startswith("VERDICT:")]
+                        fallible = [ev for ev in p.events if ev.kind == "call" and re.search(r"(CStr|OsStr|OsString|Path|PathBuf)::(to_str|into_string)$|(^|::)from_utf8$", ev.callee)]
+                        lossy = [ev for ev in p.events if ev.kind == "call" and re.search(r"to_string_lossy$|from_utf8_lossy$", ev.callee)]
+                        # (verdicts asked inside `any` / `all` closures leave no event on the path: every configuration with a pattern counts)
+                        if (asked or nn + np_ + nx > 0) and (fallible or not lossy) and eng.check(*p.pc) == z3.sat:
+                            verdict = "violated"
+                            detail = "with %d name / %d path / %d exclude patterns a pattern is asked about a string from %s" % (
+                                nn, np_, nx, ("a fallible conversion (%s)" % fallible[0].callee.split("::")[-1]) if fallible else "no lossy conversion")
+                            o.cex = {"lists": [nn, np_, nx], "conversion": (fallible[0].callee if fallible else None), "role": "name-or-path-not-utf8"}
+                            break
         o.functions = sorted("%s#%s" % (k[-60:], v) for k, v in enc.items())
         o.queries = nq
         o.stats = {"paths": npaths, "states": npaths, "transitions": nq}
@@ -774,10 +787,22 @@ def selector_logic(rep, prog):
 
 def selector_differential(drv):
     """native: real PathSelector against the documented combination on a small menu (replay of selector-logic counterexamples)"""
+    found = []
+    # names and paths that are not valid UTF-8 are matched through their lossy form
+    raw = [b"/t/caf\xe9.jpg", b"/t/d\xff/x.jpg", b"/t/plain.jpg"]
+    for inc, nm, want in (("-", "*.jpg", [True, True, True]), ("-", "caf?.jpg", [True, False, False]), ("/t/**", "-", [True, True, True]),
+                          ("/t/d?/*", "*.jpg", [False, True, False])):
+        line = "SM %s %s - %s %s" % (hx("/t"), hx(inc) if inc != "-" else "-", hx(nm) if nm != "-" else "-", " ".join(p.hex() for p in raw))
+        out = drv.run(SEL_TEST, [line], "seldb")
+        if out and out[0] not in ("ERR", "PANIC", "?"):
+            for p, cell, w in zip(raw, out[0].split(), want):
+                if (cell[0] == "1") != w:
+                    found.append({"include": inc, "name": nm, "path_bytes": p.hex(), "real_matches_full_path": cell[0] == "1", "documented": w})
+    if found:
+        return found
     pats = ["-", "*.txt", "/t/a/**", "**/b*", "a/*"]
     names = ["-", "*.txt", "b*"]
     paths = ["/t/a/x.txt", "/t/a/b.bin", "/t/c/b.txt", "/t/a/d/e.txt", "/u/x.txt", "/t/a", "/t/c", "/t"]
-    found = []
     for inc in pats:
         for exc in pats:
             for nm in names:
